@@ -941,6 +941,32 @@ func ruleCONC3(w *World) []Ob {
 						nErrChans++
 					}
 				}
+				// only a function that itself receives from those channels is a collector; one that merely hands them
+				// on (to the collector) is not
+				if nErrChans >= 2 {
+					receives := false
+					for _, f := range family {
+						allInstrs(f, func(in ssa.Instruction) {
+							switch x := in.(type) {
+							case *ssa.UnOp:
+								if x.Op == token.ARROW {
+									if ch, ok := x.X.Type().Underlying().(*types.Chan); ok && isErrorType(ch.Elem()) {
+										receives = true
+									}
+								}
+							case *ssa.Select:
+								for _, st := range x.States {
+									if ch, ok := st.Chan.Type().Underlying().(*types.Chan); ok && st.Dir == types.RecvOnly && isErrorType(ch.Elem()) {
+										receives = true
+									}
+								}
+							}
+						})
+					}
+					if !receives {
+						nErrChans = 0
+					}
+				}
 				if nErrChans >= 2 {
 					nGo := 0
 					for _, f := range family {
@@ -2045,6 +2071,43 @@ func ruleCONC6(w *World) []Ob {
 						return true
 					}
 				}
+				// the buffer is handed to a helper that starts from its truncation: f(w, x.buf, n) with `row := scratch[:0]`
+				// as the only use of that parameter
+				if h := x.Common().StaticCallee(); h != nil && p.InModule(h) && len(h.Blocks) > 0 {
+					for i, a := range x.Common().Args {
+						ld, isL := isLoad(a)
+						if !isL || i >= len(h.Params) {
+							continue
+						}
+						f2, isFA := ld.(*ssa.FieldAddr)
+						if !isFA || f2.Field != fa.Field || !sameVar(f2.X, fa.X) {
+							continue
+						}
+						refs := h.Params[i].Referrers()
+						if refs == nil || len(*refs) == 0 {
+							continue
+						}
+						only := true
+						for _, r := range *refs {
+							sl, isSl := r.(*ssa.Slice)
+							if !isSl || sl.High == nil {
+								if _, isDbg := r.(*ssa.DebugRef); isDbg {
+									continue
+								}
+								only = false
+								continue
+							}
+							if k, isK := constInt(sl.High); !isK || k != 0 {
+								only = false
+							}
+						}
+						if only {
+							return true
+						}
+					}
+				}
+			case *ssa.Extract:
+				return rec(x.Tuple, d+1)
 			}
 			return false
 		}
@@ -2082,6 +2145,15 @@ func ruleCONC6(w *World) []Ob {
 					for _, rf := range *ld.Referrers() {
 						if sl, isSl := rf.(*ssa.Slice); isSl && sl.High != nil {
 							if k, isK := constInt(sl.High); isK && k == 0 {
+								covered = true
+							}
+						}
+						// the load is the buffer handed to the refilling call itself
+						if c, isC := rf.(*ssa.Call); isC {
+							if stripConv(st.Val) == ssa.Value(c) {
+								covered = true
+							}
+							if ex, isEx := stripConv(st.Val).(*ssa.Extract); isEx && ex.Tuple == ssa.Value(c) {
 								covered = true
 							}
 						}
